@@ -747,6 +747,24 @@ func sBootstrapGuard(c *Ctx, rule string) {
 					})
 			}
 		}
+		// `return len(snapshots) > 0, nil` is the last two returns in one: the
+		// verdict is "no state" exactly when the listing is empty
+		for _, ret := range engine.ReturnsOf(fn) {
+			vals := engine.ReturnValues(ret)
+			if len(vals) == 2 && c.P.D(vals[1]) == "nil" {
+				cd := c.P.CondOf(vals[0])
+				if s, ok := cd.RelOn("len(p3.List()#0)", "0"); ok && (s == engine.GT || s == engine.LT|engine.GT) {
+					n++
+					c.RequireAt(r, rule, "HasExistingState:no-state-verdict", ret,
+						"(len(snapshots) > 0, nil) only when the term and the log were read and hold nothing, and List was read without error",
+						func(v engine.View) bool {
+							termOK := v.Seen("readTerm") && ((v.F("termErr") && v.F("termPos")) || (v.T("termErr") && v.F("termErrOther")))
+							logOK := v.Seen("readLast") && v.F("lastErr") && v.F("lastPos")
+							return termOK && logOK && v.Seen("listed") && v.F("listErr")
+						})
+				}
+			}
+		}
 		if n == 0 {
 			c.Bad(rule, "HasExistingState:no-state-verdict", c.P.Pos(fn.Pos()), "a return (false, nil)", "none")
 		}
